@@ -243,8 +243,12 @@ def check_cli_terminal(ctx, L, tname, v, columns, masks=None):
     with tempfile.TemporaryDirectory(prefix="tv-c17-") as d:
         with open(os.path.join(d, "word.hex"), "w") as f:
             f.write(v.to_bytes(bits // 8, "big").hex() + "\n")
-        master, slave = pty.openpty()
-        fcntl.ioctl(slave, termios.TIOCSWINSZ, struct.pack("HHHH", 50, columns, 0, 0))
+        try:
+            master, slave = pty.openpty()
+            fcntl.ioctl(slave, termios.TIOCSWINSZ, struct.pack("HHHH", 50, columns, 0, 0))
+        except OSError:
+            ctx.count("pseudo-terminal-unavailable(skipped)")  # no pty devices in this environment: nothing to observe
+            return
         env = dict(os.environ, PYTHONPATH=O.SRC, PYTHONHASHSEED="0", PYTHONIOENCODING="utf-8", COLUMNS=str(columns), TERM="xterm")
         p = subprocess.Popen([sys.executable, "-m", "tpmstream", "convert", "word.hex", "--in", "hex", "--type", tname], stdout=slave, stderr=subprocess.PIPE, stdin=subprocess.DEVNULL, env=env, cwd=d)
         os.close(slave)
